@@ -187,7 +187,9 @@ func (t *Trans) cbRefine(fr *Frame, cb *Contract, av ssa.Value, label string, po
 
 // checkCallbackArgs: at a call of a function under contract, every function-typed argument must
 // satisfy the callback contract of the corresponding parameter.
-func (t *Trans) checkCallbackArgs(fr *Frame, calleeKey, cname string, names []string, ptypes []types.Type, argVals []ssa.Value, pos token.Pos) {
+func (t *Trans) checkCallbackArgs(fr *Frame, calleeKey, cname string, names []string, ptypes []types.Type, argVals []ssa.Value, pos token.Pos) []func(State) string {
+	var pending []func(State) string
+	defer func() { t.pendingMaintains = pending }()
 	for i, pt := range ptypes {
 		if i >= len(argVals) || argVals[i] == nil {
 			continue
@@ -203,5 +205,34 @@ func (t *Trans) checkCallbackArgs(fr *Frame, calleeKey, cname string, names []st
 			continue
 		}
 		t.cbRefine(fr, cb, argVals[i], cname+"."+names[i], pos)
+		// closure invariants: hold now, and still hold when the callee returns (only the closure
+		// itself can reach the cells it captured)
+		if ci, ok := fr.closures[argVals[i]]; ok {
+			if G := t.P.ContractFor(ci.fn); G != nil {
+				for _, m := range G.Maintains {
+					m := m
+					ci := ci
+					eval := func(st State) string {
+						sc := &SpecCtx{t: t, st: st, old: st, names: map[string]specVal{}, callerFr: fr}
+						for k, fv := range ci.fn.FreeVars {
+							if k >= len(ci.bindings) {
+								break
+							}
+							if pt, ok := fv.Type().(*types.Pointer); ok {
+								if v := ci.finals[k]; v != "" {
+									sc.names[fv.Name()] = specVal{v, pt.Elem()}
+								} else {
+									sc.names[fv.Name()] = specVal{t.loadFrom(nil, nil, ci.bindings[k], pt.Elem(), st), pt.Elem()}
+								}
+							}
+						}
+						return sc.expandBool(m.Expr)
+					}
+					t.oblige("cb-pre", fmt.Sprintf("%s#cb-pre.%s.%s.maintains.%s", fr.path, cname, names[i], labelOr(m.Label, "inv")), append([]string{"C20"}, fr.tags...), fr.curReach, eval(fr.st), pos, "closure invariant holds when the closure is handed over")
+					pending = append(pending, eval)
+				}
+			}
+		}
 	}
+	return pending
 }
